@@ -30,14 +30,15 @@ LEVEL = 'exploration'
 EXHAUSTIVE = True
 RULE = ('Archives: every ordered tar archive of 1..2 members (3 in thorough; quick adds the 1/32 slice of the '
         '3-member space selected by VERIF_SEED, driven through StageReference only) over member names {a, d, d/a, ./a, '
-        '../x, d/../../x, ../outside-file, <abs path inside the sandbox>} x member types {file, dir, symlink->{a, .., '
+        '../x, d/../../x, ../outside-file, <abs path inside the sandbox>, <abs path in a sibling directory whose name '
+        'starts with the name of the target>} x member types {file, dir, symlink->{a, .., '
         '../x, <abs dir>}, hardlink->{a, ../outside-file}} (names may repeat, so "link, then write through the link" '
         'and "hard link, then overwrite" patterns are included); each staged by Job.stageIn (1..2 members) and by '
         'StageReference directly. 1-member archives are additionally staged gzip-compressed, from a producer '
         "component's directory and via an absolute-path reference. Reference lists: every list of 1..2 references "
         'from 11 sources (files, directories, links to them, directories containing links, trailing "/", "/." and '
         '"/..") x {copy, link, copyout} (pairs: copy/link in quick). Combos: a link/copy reference of a directory '
-        'staged before or after an :extract of every 1-member archive (2-member in thorough). Manifests: every '
+        'staged before (1-member archives: also after) an :extract of every 1-member archive (2-member in thorough). Manifests: every '
         'ordered manifest of 1..2 distinct keys (3 in thorough) from {a, a/b, ../x, a/../../x, ./a, <abs>} x {copy, '
         'link} (1-key: also the default method; also given as a YAML file), deployed by expandPackageToDirectory and by '
         'experimentFromPackage. A case is non-trivial when the staging/deployment operation was actually executed on '
@@ -86,6 +87,25 @@ class _Shadow:
         self.st.ExperimentShadowDirectory.temporaryShadow = self.orig
 
 
+MOAT = ('m',) * 6
+
+
+def _moat(top):
+    """Everything a case touches lives six directory levels below the scratch directory `top`: hostile names climb
+    with '..' and through links (at most four levels with three members of the alphabets), and attributes are
+    applied through links, so the sandbox keeps a moat between its content and /dev/shm. Returns the inner root."""
+    root = os.path.join(top, *MOAT)
+    os.makedirs(root)
+    return root
+
+
+def _moat_guard(case, before, after):
+    """An escape that climbs to within three levels of the scratch directory is a harness emergency, not a verdict."""
+    for c in SB.diff(before, after):
+        if c['path'] == '.' or c['path'].count('/') < 2:
+            raise HarnessError('case %r reached the top of its scratch sandbox: %r' % (case, SB.brief([c])))
+
+
 def _family(exc):
     return type(exc).__module__.startswith(_FAMILY_PREFIX)
 
@@ -94,6 +114,20 @@ def _write(path, content):
     os.makedirs(os.path.dirname(path), exist_ok=True)
     with open(path, 'wb' if isinstance(content, bytes) else 'w') as f:
         f.write(content)
+
+
+_STAMP_RE = re.compile(r'-\d{4}-\d{2}-\d{2}T\d{6}\.\d+\.instance')
+_SCRATCH_RE = re.compile(r'/[^"\s]*?/c18-(g-)?[A-Za-z0-9_]{6,10}(/case)?')
+
+
+def _stable(brief_changes):
+    """The change list with time stamps of instance names and scratch directory names masked (replays of a case
+    must give the same text)."""
+    import json
+    text = canon(brief_changes)
+    text = _STAMP_RE.sub('-<stamp>.instance', text)
+    text = _SCRATCH_RE.sub('<sandbox>', text)
+    return json.loads(text)
 
 
 def _judge(col, case, part, op, root, before, after, allowed, exc, features, reach, judge_family, target_desc,
@@ -113,15 +147,16 @@ def _judge(col, case, part, op, root, before, after, allowed, exc, features, rea
         sig = '%s:%s:%s:%s:%s' % (part, op, shape, features or '-', 'explained' if ok else 'UNEXPLAINED')
         why = ('%s changed entries outside %s (%s): %s' %
                (op, target_desc, 'and raised %s' % exc_name if exc_name else 'and returned normally',
-                canon(SB.brief(out, 6))))
-        _fail(col, case, why, {'outside': SB.brief(out), 'exception': exc_name, 'features': features,
+                canon(_stable(SB.brief(out, 6)))))
+        _fail(col, case, why, {'outside': _stable(SB.brief(out)), 'exception': exc_name, 'features': features,
                                'explained_by_model': ok, 'shape': shape}, sig)
         return
     if exc is None:
         col.outcome('%s:%s:done-confined%s' % (part, op, hostile))
     elif _family(exc):
         col.outcome('%s:%s:rejected:%s%s' % (part, op, exc_name, hostile))
-    elif features and judge_family:
+    elif judge_family and set(features) & set('NASH'):
+        # (feature L alone is not a *lexical* designation of something outside: kind of error not judged)
         sig = '%s:%s:foreign-exception:%s:%s' % (part, op, features, exc_name)
         _fail(col, case, '%s rejected an input that designates something outside %s with %s (%s), which is not a '
                          'staging / packaging error of experiment.model.errors' % (op, target_desc, exc_name, str(exc)[:200]),
@@ -143,14 +178,9 @@ def _fail(col, case, why, observed, sig):
         col.fail(case, why, observed, sig=sig)
 
 
-def _check_builder(members, abs_dir, data):
+def _check_builder(real_members, data):
     got = G.read_back(data)
-    want = []
-    for m in members:
-        n = G.subst(m['name'], abs_dir)
-        if m['kind'] == 'dir':
-            n = n.rstrip('/')
-        want.append((n, m['kind'], G.subst(m['link'], abs_dir)))
+    want = [(m['name'].rstrip('/') if m['kind'] == 'dir' else m['name'], m['kind'], m['link']) for m in real_members]
     if got != want:
         raise HarnessError('tar builder self-check failed: wanted %r, archive holds %r' % (want, got))
 
@@ -179,36 +209,45 @@ def _build_stage_package(S, abs_dir, refs, archive, producer):
     return pp
 
 
+def staging_order(refs):
+    """Job.stageIn stages the references in list order, but ':copyout' references after all the others."""
+    return [r for r in refs if not r.endswith(':copyout')] + [r for r in refs if r.endswith(':copyout')]
+
+
 def _refs_model(refs, wd, inst, archive_members, abs_dir, stage_dir):
     """Features and reach of a whole reference list. Link references create links in the working directory; a
     later copy / extraction that goes through such a link lands outside it (feature L)."""
     reach = SB.Reach(wd)
     features = set()
     links = []          # (path of the link in wd, its target) in staging order
+    dirs, files = [], []
     flags = {'dangling_hardlink': False}
-    for r in refs:
+    for r in staging_order(refs):
         src, method = r.rsplit(':', 1)
         name = os.path.split(src)[1]
+        real_src = os.path.realpath(src if src.startswith('/') else os.path.join(inst, src))
         if method == 'link':
             if name not in ('', '.', '..'):
-                links.append((posixpath.join(wd, name), src if src.startswith('/') else posixpath.join(inst, src)))
+                links.append((posixpath.join(wd, name), real_src))
         elif method == 'extract':
-            members = [dict(m, name=G.subst(m['name'], abs_dir), link=G.subst(m['link'], abs_dir))
-                       for m in archive_members]
+            members = archive_members           # already realised (absolute paths substituted)
             staged = [os.path.relpath(lp, wd) for lp, _ in links]
             features |= set(SB.archive_features(members, staged))
-            # the links staged so far point to real things: resolve them on the real file system
-            real_links = [(lp, os.path.realpath(lt)) for lp, lt in links]
-            r2, flags = SB.simulate_archive(members, wd, existing_files=[posixpath.join(stage_dir, 'outside-file')],
-                                            existing_dirs=[abs_dir] + [t for _, t in real_links if os.path.isdir(t)],
-                                            existing_links=real_links)
+            r2, flags = SB.simulate_archive(members, wd,
+                                            existing_files=[posixpath.join(stage_dir, 'outside-file')] + files,
+                                            existing_dirs=[abs_dir] + dirs + [t for _, t in links if os.path.isdir(t)],
+                                            existing_links=links)
             for p, sub in r2.paths.items():
                 reach.touch(p, sub)
         elif method in ('copy', 'copyout'):
+            hit = False
             for lp, lt in links:
                 if posixpath.join(wd, name) == lp:
+                    hit = True
                     features.add('L')
-                    reach.touch_with_parent(os.path.realpath(lt), True)
+                    reach.touch_with_parent(lt, True)
+            if not hit and name not in ('', '.', '..'):
+                (dirs if os.path.isdir(real_src) else files).append(posixpath.join(wd, name))
     return ''.join(sorted(features)), reach, flags
 
 
@@ -219,16 +258,14 @@ def run_job_case(col, case):
     from verif.gen.pkg import scratch_dir
     part = case['part']
     col.evaluated()
-    with scratch_dir('c18-') as S:
+    with scratch_dir('c18-') as TOP:
+        S = _moat(TOP)
         abs_dir = os.path.join(S, 'victim')
         _write(os.path.join(abs_dir, 'keep'), 'victim-keep\n')
         via = case.get('via', 'data')
         members = case.get('archive')
         arch_name = 'arch.tar' + ('.gz' if case.get('compress') else '')
-        data = None
-        if members is not None:
-            data = G.build_tar(members, abs_dir, case.get('compress', ''))
-            _check_builder(members, abs_dir, data)
+        placeholder = (arch_name, b'placeholder, replaced once the working directory is known') if members is not None else None
         refs = []
         for r in case['refs']:
             if r == '@ARCHIVE@':
@@ -239,22 +276,19 @@ def run_job_case(col, case):
                 else:
                     r = '%s:extract' % os.path.join(S, 'src', arch_name)
             refs.append(r)
-        if via == 'abs' and data is not None:
-            _write(os.path.join(S, 'src', arch_name), data)
+        if via == 'abs' and placeholder:
+            _write(os.path.join(S, 'src', arch_name), placeholder[1])
         with _Shadow(S):
             try:
-                pp = _build_stage_package(S, abs_dir, refs, (arch_name, data) if data is not None else None,
-                                          via == 'producer')
+                pp = _build_stage_package(S, abs_dir, refs, placeholder, via == 'producer')
                 os.makedirs(os.path.join(S, 'run'))
                 pkg = experiment.model.storage.ExperimentPackage.packageFromLocation(pp)
                 exp = experiment.model.data.Experiment.experimentFromPackage(pkg, location=os.path.join(S, 'run'))
-                jobs = [j for j in next(exp.stages()).jobs() if j.name == 'c']
-                job = jobs[0]
+                jobs = {j.name: j for j in next(exp.stages()).jobs()}
+                job = jobs['c']
                 inst = exp.instanceDirectory.location
                 wd = job.workingDirectory.path
-                if via == 'producer' and data is not None:
-                    prod = [j for j in next(exp.stages()).jobs() if j.name == 'prod'][0]
-                    _write(os.path.join(prod.workingDirectory.path, arch_name), data)
+                prod_wd = jobs['prod'].workingDirectory.path if via == 'producer' else None
             except Exception as e:
                 col.outcome('%s:setup-rejected:%s' % (part, type(e).__name__))
                 return
@@ -262,18 +296,26 @@ def run_job_case(col, case):
                 raise HarnessError('unexpected working directory %r' % wd)
             stage_dir = os.path.dirname(wd)
             _write(os.path.join(stage_dir, 'outside-file'), 'outside-file-original-content\n')
-            wd_rel = os.path.relpath(wd, S)
-            features, reach, flags = _refs_model(refs, wd, inst, members or [], abs_dir, stage_dir)
+            real_members = []
+            if members is not None:
+                real_members = G.realise(members, abs_dir, wd)
+                data = G.build_tar(real_members, compress=case.get('compress', ''))
+                _check_builder(real_members, data)
+                where = {'data': os.path.join(inst, 'data'), 'producer': prod_wd, 'abs': os.path.join(S, 'src')}[via]
+                _write(os.path.join(where, arch_name), data)
+            wd_rel = os.path.relpath(wd, TOP)
+            features, reach, flags = _refs_model(refs, wd, inst, real_members, abs_dir, stage_dir)
             col.nontriv(case)
-            before = SB.snapshot(S)
+            before = SB.snapshot(TOP)
             exc = None
             try:
                 job.stageIn()
             except Exception as e:
                 exc = e
-            after = SB.snapshot(S)
+            after = SB.snapshot(TOP)
+        _moat_guard(case, before, after)
         # an archive with a dangling hard link is malformed whatever its names are: the kind of error is not judged
-        _judge(col, case, part, 'stageIn', S, before, after, [wd_rel], exc, features, reach,
+        _judge(col, case, part, 'stageIn', TOP, before, after, [wd_rel], exc, features, reach,
                not flags['dangling_hardlink'], 'the component working directory')
 
 
@@ -320,25 +362,28 @@ def run_stageref_case(col, case, graph, base):
     k = os.path.join(base, 'case')
     if os.path.lexists(k):
         shutil.rmtree(k)
+    around = sorted(os.listdir(base))
     try:
-        abs_dir = os.path.join(k, 'victim')
+        root = _moat(k)
+        abs_dir = os.path.join(root, 'victim')
         _write(os.path.join(abs_dir, 'keep'), 'victim-keep\n')
-        stage_dir = os.path.join(k, 'run', 'stage0')
+        # same depth as a real instance: three '..' hops above the stage directory stay inside the sandbox
+        stage_dir = os.path.join(root, 'run', 'inst', 'stages', 'stage0')
         wd = os.path.join(stage_dir, 'wd')
         os.makedirs(wd)
         _write(os.path.join(stage_dir, 'outside-file'), 'outside-file-original-content\n')
         members = case['archive']
-        data = G.build_tar(members, abs_dir)
+        real_members = G.realise(members, abs_dir, wd)
+        data = G.build_tar(real_members)
         if len(members) == 1:
-            _check_builder(members, abs_dir, data)
-        arch = os.path.join(k, 'src', 'arch.tar')
+            _check_builder(real_members, data)
+        arch = os.path.join(root, 'src', 'arch.tar')
         _write(arch, data)
         try:
             ref = experiment.model.graph.DataReference('%s:extract' % arch, stageIndex=0)
             loc = experiment.model.storage.WorkingDirectory(wd)
         except Exception as e:
             raise HarnessError('cannot build DataReference/WorkingDirectory: %r' % (e,))
-        real_members = [dict(m, name=G.subst(m['name'], abs_dir), link=G.subst(m['link'], abs_dir)) for m in members]
         reach, _ = SB.simulate_archive(real_members, wd, existing_files=[os.path.join(stage_dir, 'outside-file')],
                                        existing_dirs=[abs_dir])
         features = SB.archive_features(real_members)
@@ -350,6 +395,9 @@ def run_stageref_case(col, case, graph, base):
         except Exception as e:
             exc = e
         after = SB.snapshot(k)
+        if sorted(os.listdir(base)) != sorted(around + ['case']):
+            raise HarnessError('case %r reached beyond its mini-sandbox: %r' % (case, sorted(os.listdir(base))))
+        _moat_guard(case, before, after)
         _judge(col, case, 'S', 'StageReference', k, before, after, [os.path.relpath(wd, k)], exc, features, reach,
                False, 'the staging location')
     finally:
@@ -368,9 +416,12 @@ def run_manifest_case(col, case):
     from verif.gen.pkg import scratch_dir
     part = case['part']
     col.evaluated()
-    with scratch_dir('c18-') as S:
+    with scratch_dir('c18-') as TOP:
+        S = _moat(TOP)
+        rel = os.path.relpath(S, TOP)
         abs_dir = os.path.join(S, 'victim')
         _write(os.path.join(abs_dir, 'keep'), 'victim-keep\n')
+        _write(os.path.join(abs_dir, 'sub', 'keep'), 'victim-sub-keep\n')
         pkg_dir = os.path.join(S, 'pkg')
         sources = []
         for i in range(len(case['manifest'])):
@@ -381,7 +432,7 @@ def run_manifest_case(col, case):
             # (no link to a parent directory here: deployment copies manifest sources with links followed, a loop
             #  would only make every copy fail with ELOOP)
             os.symlink('f', os.path.join(sd, 'lf'))
-            os.symlink(abs_dir, os.path.join(sd, 'labs'))
+            os.symlink(os.path.join(abs_dir, 'sub'), os.path.join(sd, 'labs'))
             sources.append(sd)
         flow = os.path.join(pkg_dir, 'flow.yaml')
         _write(flow, yaml.safe_dump({'components': [{'name': 'c', 'stage': 0, 'command': {'executable': 'ls'}}]}))
@@ -401,7 +452,7 @@ def run_manifest_case(col, case):
         features = SB.manifest_features(entries)
         col.nontriv(case)
         with _Shadow(S):
-            before = SB.snapshot(S)
+            before = SB.snapshot(TOP)
             exc = None
             inst = os.path.join(work, 'flow.instance')
             try:
@@ -413,16 +464,17 @@ def run_manifest_case(col, case):
                     inst = exp.instanceDirectory.location
             except Exception as e:
                 exc = e
-            after = SB.snapshot(S)
+            after = SB.snapshot(TOP)
+        _moat_guard(case, before, after)
         if part == 'E' and exc is not None:
             # the instance directory name carries a time stamp: find it
             names = [n for n in os.listdir(work) if n.endswith('.instance')]
             inst = os.path.join(work, names[0]) if len(names) == 1 else os.path.join(work, 'flow.instance')
         reach = SB.manifest_targets(entries, inst, sources)
-        allowed = [lambda p: bool(_INST_RE.match(p)), 'shadow']
+        allowed = [lambda p: p.startswith(rel + '/') and bool(_INST_RE.match(p[len(rel) + 1:])), rel + '/shadow']
         op = 'expandPackageToDirectory' if part == 'M' else 'experimentFromPackage'
-        _judge(col, case, part, op, S, before, after, allowed, exc, features, reach, part == 'E',
-               'the new instance directory', parent_mtime_ok=('work',))
+        _judge(col, case, part, op, TOP, before, after, allowed, exc, features, reach, part == 'E',
+               'the new instance directory', parent_mtime_ok=(rel + '/work',))
 
 
 # ------------------------------------------------------------------------------------------------- enumeration
@@ -451,7 +503,8 @@ def job_cases(thorough):
         for members in G.archives(n):
             for pre in G.COMBO_PRE:
                 yield {'part': 'C', 'refs': pre + ['@ARCHIVE@'], 'archive': members}
-                yield {'part': 'C', 'refs': ['@ARCHIVE@'] + pre, 'archive': members}
+                if n == 1:
+                    yield {'part': 'C', 'refs': ['@ARCHIVE@'] + pre, 'archive': members}
 
 
 def manifest_cases(thorough):
@@ -589,13 +642,12 @@ def case_features(case):
     part = case.get('part')
     if part in ('M', 'E'):
         return SB.manifest_features([(k.replace(G.ABS, '/ABS'), m or 'copy') for k, m, _ in case['manifest']])
-    members = [dict(m, name=m['name'].replace(G.ABS, '/ABS'), link=(m['link'] or '').replace(G.ABS, '/ABS') or None)
-               for m in (case.get('archive') or [])]
+    members = G.realise(case.get('archive') or [], '/ABS', '/WD')
     if part == 'S':
         return SB.archive_features(members)
     feats = set()
     links = []
-    for r in case.get('refs') or []:
+    for r in staging_order(case.get('refs') or []):
         if r == '@ARCHIVE@':
             feats |= set(SB.archive_features(members, links))
             continue
